@@ -154,7 +154,7 @@ func (c *refineCheck) Run(env *Env, sc *Scenario) (*Violation, error) {
 	berr := env.Bubble(func() {
 		var tipViol *Violation
 		mr, err := modelRun(env, w, c.opt, restarts, func(r *sim.Replica, mr *ModelRun) {
-			if c.atTip != nil && len(mr.Mismatches) == 0 && mr.Ambiguous == 0 {
+			if c.atTip != nil {
 				tipViol = c.atTip(env, w, r, mr)
 			}
 		})
